@@ -11,6 +11,7 @@ Decided here:
           (follows from R1 because the right-hand sides are monotone; checked independently by polarity inference);
   C11-R3  every fixed-point loop runs to stabilisation: classical loops exit only when the iterate equals its
           previous value, the saturation loop only after a full sweep over all network variables without an update.
+  C11-R4  the self-loop set handed to the evaluators is compute_steady_states of the evaluated graph in every driver.
 Not decided: convergence speed, the library's pre-image (L2)."""
 import evalnode as E
 import polarity
@@ -66,6 +67,10 @@ def run(prog, rep):
                 rep.check(good, "C11-R2", f"{op}->{f.name}/{sp[1]}", f"{f.file}:{f.line}",
                           f"argument `{sp[1]}` has polarity {pol}", f"argument `{sp[1]}` of {f.name} has polarity {pol}, the operator {op} requires {want}")
     rep.floor("C11-R2", 20)
+    import pipelines
+    rep.rule("C11-R4", "every driver passes compute_steady_states(graph) of the evaluated graph to eval_node (EX/AX treat steady states as self-loops)")
+    pipelines.check_steady_pipeline(prog, rep, "C11-R4")
+    rep.floor("C11-R4", 20)
     for f in prog.lib_fns():
         if f.path.startswith(E.OPS):
             rep.functions.add(f.qual)
